@@ -349,7 +349,7 @@ def _read_dir(sd):
 
 def impl_fetch(R, d, ds, coords_list, via="url"):
     try:
-        with watchdog():
+        with watchdog(20.0 if not ds.get("large") else 120.0):
             return _impl_fetch(R, d, ds, coords_list, via)
     except ImplHang:
         _note_hang(R, "fetch_chunk", ds)
@@ -850,3 +850,91 @@ def impl_write_child(R, ds, ops, strategy, name, info=None):
     with open(os.path.join(d, "info"), "w") as f:
         json.dump(info, f)
     return outs, closed, files, d
+
+
+def gen_gappy_dataset(rng, idx):
+    """A dataset whose reversed store order leaves chunks in the out-of-order
+    buffers until close (used for writers that exit without an explicit close)."""
+    for k in range(50):
+        ds = gen_dataset(rng, idx + 97 * k)
+        if ds["subset"] in ("class-tail", "suffix", "every-other", "random30", "random70") and len(ds["sel"]) >= 3:
+            return ds
+    return ds
+
+
+# ------------------------------------------------------------------ deterministic large cases (oracle only)
+def large_cases(tier, prop):
+    """(name, dataset description without payload bytes, strategies).  Payload
+    sizes in bytes; "pattern" payloads are highly compressible."""
+    MiB = 1 << 20
+    cases = [
+        # one gzip-encoded chunk above 1 MiB (piecewise deflate)
+        ("gzip-chunk-1.2MiB", {"grid": [1, 1, 2], "m": 0, "s": 0, "p": 0, "ie": "raw", "de": "gzip",
+                               "sizes_b": [int(1.2 * MiB) + 13, 10], "kind": "random"}, ["in memory"]),
+        # one minishard above 16 MiB (block-wise copying of the on-disk buffer)
+        ("minishard-20MiB", {"grid": [1, 2, 1], "m": 0, "s": 0, "p": 0, "ie": "gzip", "de": "raw",
+                             "sizes_b": [10 * MiB + 5, 10 * MiB - 3], "kind": "random"},
+         ["on disk"] + (["in memory"] if prop == "C05" else [])),
+    ]
+    if tier == "thorough":
+        cases.append(("gzip-chunk-80MiB", {"grid": [2, 1, 1], "m": 1, "s": 0, "p": 0, "ie": "raw", "de": "gzip",
+                                           "sizes_b": [80 * MiB + 1, 3], "kind": "pattern"}, ["on disk"]))
+    return cases
+
+
+def run_large_cases(R, prop):
+    """Large payloads are judged without the model (its byte lists are too
+    slow beyond ~100 KiB): files equal across strategies, every chunk found by
+    the Python specification reader, and (C05) returned by a fresh accessor."""
+    rng = R.rng
+    for name, d0, strategies in large_cases(R.tier, prop):
+        g = d0["grid"]
+        coords = sorted(itertools.product(range(g[0]), range(g[1]), range(g[2])), key=lambda c: ref_cmc(g, c))
+        payloads = []
+        for n in d0["sizes_b"]:
+            if d0["kind"] == "pattern":
+                unit = bytes(range(251)) * 4
+                payloads.append((unit * (n // len(unit) + 1))[:n])
+            else:
+                payloads.append(rng.randbytes(n))
+        ds = {"grid": g, "cs": 1, "sizes": list(g), "m": d0["m"], "s": d0["s"], "p": d0["p"], "ie": d0["ie"],
+              "de": d0["de"], "subset": "large:" + name, "large": True, "omit": [],
+              "sel": [list(c) for c in coords[:len(payloads)]], "payloads": payloads}
+        case = {k: ds[k] for k in ("grid", "cs", "sizes", "m", "s", "p", "ie", "de", "subset")}
+        case["payload_sizes"] = d0["sizes_b"]
+        R.case(case, nontrivial=True)
+        R.count("large:" + name)
+        ops = order_ops(ds, rng, "reversed")
+        first = None
+        for k, strat in enumerate(strategies):
+            R.extra["_force_mode"] = 0.9        # plain history
+            try:
+                outs, closed, files, d = impl_write(R, ds, ops, strat, f"large_{prop}_{name}_{k}")
+            finally:
+                R.extra.pop("_force_mode", None)
+            vcase = dict(case, strategy=strat)
+            if any(o[0] != "ok" for o in outs) or closed[0] != "ok":
+                R.violation("a valid store sequence with large payloads raised", vcase,
+                            {"outs": [o for o in outs if o[0] != "ok"][:3], "close": closed})
+                continue
+            if first is None:
+                first = files
+            elif files != first:
+                R.violation("shard files differ between buffering strategies (large payloads)", vcase,
+                            {"differing_files": sorted(n for n in set(files) | set(first) if files.get(n) != first.get(n)),
+                             "lengths": {n: [len(first.get(n, b"")), len(files.get(n, b""))] for n in set(files) | set(first)}})
+            for c, pl in zip(ds["sel"], payloads):
+                cid = ref_cmc(g, c)
+                got = py_spec_fetch(files, ds["m"], ds["s"], ds["p"], ds["ie"], ds["de"], cid)
+                if got != ("found", pl):
+                    R.violation("stored chunk not retrievable by the specification reader (large payloads)",
+                                dict(vcase, id=cid), {"spec_fetch": got if isinstance(got, str) else
+                                                      ("found", len(got[1]), "bytes"), "stored_bytes": len(pl)})
+            if prop == "C05":
+                fouts, _ = impl_fetch(R, d, ds, [tuple(c) for c in ds["sel"]], "ctor")
+                for c, pl, fo in zip(ds["sel"], payloads, fouts):
+                    if fo != ["ok", pl]:
+                        R.violation("fetch of a stored chunk does not return the stored bytes (large payloads)",
+                                    dict(vcase, fetch=list(c)),
+                                    {"impl": fo[0] if fo[0] != "ok" else ("ok", len(fo[1]), "bytes"), "stored_bytes": len(pl)})
+            shutil.rmtree(d, ignore_errors=True)
